@@ -3,7 +3,7 @@
    extracted OCaml driver and (on a sample) inside Coq by vm_compute. *)
 From Coq Require Import String.
 From TlshV Require Import Model.Machine Model.Tokens Gen.Tables Model.MLength Model.MHexStr Model.MHash
-  Model.MPearson Model.MGenerate Model.MFloat Model.MFinalize.
+  Model.MPearson Model.MGenerate Model.MFloat Model.MFinalize Spec.SpecGenerate.
 Open Scope string_scope.
 Open Scope list_scope.
 Open Scope N_scope.
@@ -332,6 +332,19 @@ Fixpoint run_hist (gc : gcfg) (v : variant) (fuel : nat) (ops : list tok) (stack
               end
           | _ => acc ++ [bad]
           end
+        else if is_sym op "uzero" then
+          match rest with
+          | TN n :: rest' =>
+              if 1000000 <? n then acc ++ [[S "MODEL-SLICE-TOO-LARGE-TO-EVALUATE"]]
+              else
+              match @update unit gc v top (repeat 0 (N.to_nat n)) with
+              | Ok s' => run_hist gc v fuel' rest' (s' :: below) acc
+              | Panic => acc ++ [[S "PANIC"]]
+              | UB => acc ++ [[S "UB"]]
+              | Err _ => acc ++ [bad]
+              end
+          | _ => acc ++ [bad]
+          end
         else if is_sym op "f" then
           match rest with
           | TN bits :: rest' =>
@@ -376,6 +389,19 @@ Definition dispatch_gen (c : mcfg) (op : tok) (args : list tok) : option (list t
             | Ok s => Some (show_gen_res (finalize_exec gc v (options_of bits) s))
             | _ => Some [S "PANIC"]
             end
+        | None => Some bad
+        end
+    | _ => Some bad
+    end
+  else if is_sym op "spec_hash" then
+    (* the reference itself (Spec/SpecGenerate.v), used as the oracle of the failing-input search *)
+    match args with
+    | [vt; TN bits; TB data] =>
+        match variant_of vt with
+        | Some v => Some (match spec_tlsh v (options_of bits) data with
+                          | inl h => [S "ok"; TB (hash_bytes h)]
+                          | inr e => [S "err"; show_gerr e]
+                          end)
         | None => Some bad
         end
     | _ => Some bad
